@@ -12,7 +12,7 @@ import ast
 import numpy as np
 
 from engine import cfront, crules, definit, pyfacts, vn, vn_c, vn_py
-from engine.cfront import estr, ewalk
+from engine.cfront import estr, ewalk, swalk
 from engine.pyfacts import src
 
 PID = "C06"
@@ -104,8 +104,11 @@ def r2(R, tus):
         val = n.e.val if n.e is not None and n.e.k == "int" else None
         R.check((val == 0) == nonsing, "C06.R2", CFILE, n.line, inv.name, "return %s under %s" % (estr(n.e), sorted(g)),
                 "inverse3x3 must return 0 exactly on the path that inverted the matrix")
+    byname = {g.name: g for g in cfront.all_funcs(tus)}
     for fname in ("score_and_refine", "refine_assigned"):
         f = cfront.find_func(tus, fname, CFILE)
+        # helpers the solve / write-back was moved into are read in place (inverse3x3 stays a call: its status is what guards)
+        f, _d, _k = cfront.inline_calls(f, byname, which=set(byname) - {"inverse3x3", fname}, depth=3)
         ubi = f.params[0].name
         st = crules.stores_to_param(f, ubi)
         if not st:
@@ -119,20 +122,28 @@ def r2(R, tus):
             conds = f.cfg.guards(n.id)
             texts = [(estr(e), pol) for e, pol in conds]
             # need: (k == 0) true with k assigned from inverse3x3(H), and (inverse3x3(UB) == 0) true
-            k_ok = False
-            ub_ok = False
+            # inversions known to have succeeded here:  inverse3x3(M) == 0  taken,  inverse3x3(M) != 0  not taken, directly or through a
+            # variable that holds the status
+            inverted = set()
             for e, pol in conds:
-                if not pol or not (e.k == "bin" and e.op == "=="):
+                if not (e.k == "bin" and e.op in ("==", "!=")) or (e.op == "==") != bool(pol):
                     continue
                 l, r = e.a
-                if r.k == "int" and r.val == 0 and l.k == "var":
-                    # variable must hold inverse3x3(...)'s status
+                if l.k == "int":
+                    l, r = r, l
+                if not (r.k == "int" and r.val == 0):
+                    continue
+                if l.k == "var":
                     for s2, y in cfront.all_exprs(f.body):
                         if y.k == "asg" and y.op == "=" and y.a[0].k == "var" and y.a[0].name == l.name \
                                 and y.a[1].k == "call" and y.a[1].name == "inverse3x3":
-                            k_ok = True
-                if r.k == "int" and r.val == 0 and l.k == "call" and l.name == "inverse3x3":
-                    ub_ok = True
+                            inverted.add(estr(y.a[1].a[0]))
+                    for s2 in swalk(f.body):
+                        if s2.k == "decl" and s2.var.name == l.name and s2.init is not None and s2.init.k == "call" and s2.init.name == "inverse3x3":
+                            inverted.add(estr(s2.init.a[0]))
+                if l.k == "call" and l.name == "inverse3x3":
+                    inverted.add(estr(l.a[0]))
+            k_ok = ub_ok = len(inverted) >= 2
             R.check(k_ok and ub_ok, "C06.R2", CFILE, x.line, fname, "%s guarded by %s" % (estr(x), texts),
                     "the input matrix is overwritten although one of the two 3x3 inversions may have failed "
                     "(singular normal equations must leave ubi unchanged)")
@@ -285,9 +296,14 @@ def r4_kernel(R, f, paths, fname, E, want_ubi, pn, r4n="C06.R4"):
                 selected = pol
             if fname == "refine_assigned" and op in ("!=", "==") and "label" in text:
                 selected = (pol if op == "==" else not pol)
-            if not pol and ("inverse3x3" in text or any(isinstance(x, tuple) and x and x[0] == "inv3x3_status"
-                                                           for r in (a, b) if hasattr(r, "atoms") for x in r.atoms())):
-                inv_fail = True
+            if "inverse3x3" in text or any(isinstance(x, tuple) and x and x[0] == "inv3x3_status" for r in (a, b) if hasattr(r, "atoms") for x in r.atoms()):
+                # the status is 0 on success: 'status == 0' taken, or 'status != 0' not taken, is the success branch
+                zero = [r for r in (a, b) if hasattr(r, "is_const") and r.is_const() and r.const_value() == 0]
+                if op in ("==", "!=") and zero:
+                    success = (op == "==") == bool(pol)
+                    inv_fail = inv_fail or not success
+                elif not pol:
+                    inv_fail = True
         if wrote:
             if inv_fail:
                 R.violation(r4n, CFILE, f.line, fname, "store to ubi on path %s" % [(c[4], c[3]) for c in path.conds],
